@@ -21,7 +21,8 @@ var ConnCallees = []string{"readHandshake", "readChangeCipherSpec", "WriteRecord
 
 // ConnSummary produces coq/gen/C34Summary_gen.v from tls/conn.go.
 func ConnSummary(path string) (string, error) {
-	F, err := Parse(path, Config{Types: map[string]bool{"Conn": true}, Descend: map[string]bool{"halfConn": true}})
+	F, err := Parse(path, Config{Types: map[string]bool{"Conn": true}, Descend: map[string]bool{"halfConn": true},
+		Markers: map[string]string{"writeRecordLocked": "@writeRecord"}, PerSection: map[string]bool{"out.trafficSecret": true}})
 	if err != nil {
 		return "", err
 	}
